@@ -48,6 +48,9 @@ WallOf(b, offmin) == LET e == SplitEpoch(Add(b, K9(FromInt(offmin * 60))))
 \* minutes of a fixed-offset zone identifier / of "UTC" (characters)
 ZoneMinutes(tz) == IF tz = Chars("UTC") THEN 0 ELSE OffMinutes(OffAt(tz, 1))
 
+\* canonical identifier of a zone: +HH:MM for offset zones, the name otherwise
+ZoneText(tz) == IF Ch(tz, 1) \in {"+", "-"} THEN Offset(ZoneMinutes(tz)) ELSE Join(tz)
+
 (* ---------------- per type ---------------- *)
 FmtPlainDate(v, cd) == FmtDate(v) \o CalAnn(v.cal, cd)
 FmtPlainDateTime(v, p, cd) == FmtDate(v) \o "T" \o FmtTime(v, p) \o CalAnn(v.cal, cd)
@@ -64,7 +67,7 @@ FmtInstant(b, p, tz) == LET off == IF tz = <<>> THEN 0 ELSE ZoneMinutes(tz)
 \* offmin: the zone's offset at that instant (computed for fixed-offset zones, supplied for named ones)
 FmtZonedAt(v, offmin, p, od, zd, cd) ==
   LET w == WallOf(v.ns, offmin)
-  IN FmtDate(w) \o "T" \o FmtTime(w, p) \o (IF od = "never" THEN "" ELSE Offset(offmin)) \o TzAnn(Join(v.tz), zd) \o CalAnn(v.cal, cd)
+  IN FmtDate(w) \o "T" \o FmtTime(w, p) \o (IF od = "never" THEN "" ELSE Offset(offmin)) \o TzAnn(ZoneText(v.tz), zd) \o CalAnn(v.cal, cd)
 FmtZoned(v, p, od, zd, cd) == FmtZonedAt(v, ZoneMinutes(v.tz), p, od, zd, cd)
 
 (* ---------------- durations ---------------- *)
@@ -140,7 +143,7 @@ Readback(ty, v, o) ==
     [] ty = "PlainYearMonth" -> [y |-> v.y, m |-> v.m, cal |-> ShownCal(v.cal, o.cd)]
     [] ty = "PlainMonthDay" -> [m |-> v.m, d |-> v.d, cal |-> ShownCal(v.cal, o.cd)]
     [] ty = "Instant" -> FloorBig(v, p)
-    [] ty = "ZonedDateTime" -> [ns |-> FloorBig(v.ns, p), tz |-> v.tz, cal |-> ShownCal(v.cal, o.cd)]
+    [] ty = "ZonedDateTime" -> [ns |-> FloorBig(v.ns, p), tz |-> Chars(ZoneText(v.tz)), cal |-> ShownCal(v.cal, o.cd)]
     [] ty = "Duration" -> LET X == Fold(BalanceFor(AbsDur(v), p)) IN IF DurSign(v) = -1 THEN NegDur(X) ELSE X
 KeepsInfo(ty, v, o) ==
   LET p == EffPrec(o.p, o.su) IN
@@ -154,6 +157,7 @@ KeepsInfo(ty, v, o) ==
 Canon(ty, v) == CASE ty = "Duration" -> Fold(v)
                   [] ty = "PlainYearMonth" -> [y |-> v.y, m |-> v.m, cal |-> v.cal]
                   [] ty = "PlainMonthDay" -> [m |-> v.m, d |-> v.d, cal |-> v.cal]
+                  [] ty = "ZonedDateTime" -> [v EXCEPT !.tz = Chars(ZoneText(v.tz))]
                   [] OTHER -> v
 
 \* a formatter call fails exactly when the options are invalid or truncation leaves the type's range
